@@ -4,17 +4,20 @@ import (
 	"fmt"
 	"os"
 	"path/filepath"
+	goruntime "runtime"
+	"runtime/debug"
+	"strconv"
+	"sync"
 	"testing"
+	"testing/synctest"
+	"time"
+
+	"github.com/internetarchive/Zeno/internal/pkg/stats"
+	"github.com/internetarchive/Zeno/internal/pkg/verifhook"
 )
 
-func RunComp(t *testing.T, in *RunInput) {}
-
 func moreOracles(r *e2e, t *tracker) []Oracle {
-	var c02 *oC02
-	for _, o := range r.k.Oracles {
-		_ = o
-	}
-	c02 = &oC02{r: r, t: t}
+	c02 := &oC02{r: r, t: t}
 	out := []Oracle{&oC03{r: r}}
 	out = append(out, moreE2EOracles(r, t)...)
 	if f, err := os.OpenFile(filepath.Join(r.in.JobDir, fmt.Sprintf("exch.%d.jsonl", r.in.Phase)), os.O_CREATE|os.O_WRONLY|os.O_APPEND, 0o644); err == nil {
@@ -25,4 +28,273 @@ func moreOracles(r *e2e, t *tracker) []Oracle {
 		out = append(out, r.c04)
 	}
 	return out
+}
+
+// ---------------------------------------------------------------- component simulation engine
+
+// compState is what one component-simulation iteration (one bubble) works with.
+type compState struct {
+	k           *Kernel
+	tape        *Tape
+	prop        string
+	extra       map[string]string
+	clients     sync.WaitGroup
+	nLive       int
+	liveMu      sync.Mutex
+	done        chan struct{} // closed when the iteration is being torn down
+	blocked     map[string]string
+	sample      map[string]any
+	endHook     func() // called at quiescent points; may call k.End
+	staleRounds int
+	mu          sync.Mutex
+}
+
+func (cs *compState) Draw(n int) int {
+	cs.mu.Lock()
+	defer cs.mu.Unlock()
+	return cs.tape.Draw(n)
+}
+
+func (cs *compState) Chance(num, den int) bool { return cs.Draw(den) < num }
+
+// Go starts a simulated client. The client must call cs.k.Park before every Draw.
+func (cs *compState) Go(actor string, f func()) {
+	cs.liveMu.Lock()
+	cs.nLive++
+	cs.liveMu.Unlock()
+	go func() {
+		defer func() {
+			cs.liveMu.Lock()
+			cs.nLive--
+			cs.liveMu.Unlock()
+		}()
+		cs.k.Park(actor, "comp.start")
+		f()
+	}()
+}
+
+func (cs *compState) Live() int {
+	cs.liveMu.Lock()
+	defer cs.liveMu.Unlock()
+	return cs.nLive
+}
+
+// Enter / Leave bracket a call into the component, so that a call that never returns can be named.
+func (cs *compState) Enter(actor, call string) {
+	cs.liveMu.Lock()
+	cs.blocked[actor] = call
+	cs.liveMu.Unlock()
+}
+func (cs *compState) Leave(actor string) {
+	cs.liveMu.Lock()
+	delete(cs.blocked, actor)
+	cs.liveMu.Unlock()
+}
+func (cs *compState) Blocked() map[string]string {
+	cs.liveMu.Lock()
+	defer cs.liveMu.Unlock()
+	out := map[string]string{}
+	for k, v := range cs.blocked {
+		out[k] = v
+	}
+	return out
+}
+
+type compSim func(cs *compState)
+
+var compSims = map[string]compSim{}
+
+func compResolver(k *Kernel, goid uint64, point string, args []any) string {
+	for _, r := range roleByPrefix {
+		if len(point) >= len(r.prefix) && point[:len(r.prefix)] == r.prefix {
+			k.actorOf[goid] = r.role
+			return r.role
+		}
+	}
+	if a, ok := k.actorOf[goid]; ok {
+		return a
+	}
+	return "g?:" + point
+}
+
+// RunComp runs Extra["iters"] iterations of the component simulation Extra["comp"], one bubble each.
+func RunComp(t *testing.T, in *RunInput) {
+	sc := in.Scenario
+	name := sc.Extra["comp"]
+	fn := compSims[name]
+	rec := &RunRecord{Property: in.Property, Seed: in.Seed, Probes: map[string]int{}, Faults: map[string]int{}, Summary: map[string]any{}}
+	write := func() {
+		writeJSON(in.Out, rec)
+	}
+	if fn == nil {
+		rec.EndReason = "harness-panic"
+		rec.Panic = "unknown component simulation " + name
+		write()
+		os.Exit(3)
+	}
+	iters, _ := strconv.Atoi(sc.Extra["iters"])
+	if iters <= 0 {
+		iters = 1
+	}
+	only := -1
+	if v, ok := sc.Extra["only_iter"]; ok {
+		only, _ = strconv.Atoi(v)
+	}
+	os.Chdir(in.JobDir)
+	stats.Init()
+	hashes := map[string]bool{}
+	pairs := map[string]bool{}
+	var samples []any
+	for i := 0; i < iters; i++ {
+		if only >= 0 && i != only {
+			continue
+		}
+		sub := in.Seed*0x9e3779b97f4a7c15 + uint64(i)*0x632be59bd9b4e019 + 1
+		var tape *Tape
+		if in.Replay && (only == i || iters == 1) {
+			tape = NewReplayTape(in.Tape)
+		} else {
+			tape = NewTape(sub)
+		}
+		var k *Kernel
+		var cs *compState
+		var simNs int64
+		func() {
+			defer func() {
+				if p := recover(); p != nil {
+					msg := fmt.Sprint(p)
+					if k != nil && len(msg) > 8 && (contains(msg, "deadlock") || contains(msg, "blocked goroutines")) {
+						// goroutines left durably blocked when the bubble ended: the iteration's own oracles have already judged that
+						return
+					}
+					rec.Panic = fmt.Sprintf("iter %d: %v\n%s", i, p, debug.Stack())
+				}
+			}()
+			synctest.Test(t, func(t *testing.T) {
+				time.Sleep(123456789 * time.Nanosecond)
+				goruntime.SimBubbleGlobals(true)
+				k = NewKernel(tape)
+				k.resolver = compResolver
+				k.keepLog = in.KeepLog
+				k.MaxSteps = 20000
+				k.MaxSimTime = 6 * time.Hour
+				cs = &compState{k: k, tape: tape, prop: in.Property, extra: sc.Extra, done: make(chan struct{}), blocked: map[string]string{}, sample: map[string]any{}}
+				verifhook.Handler = k.Handle
+				k.SetActor("root")
+				fn(cs)
+				simNs = int64(k.Now())
+				verifhook.Handler = nil
+			})
+		}()
+		goruntime.SimSetBias(0)
+		if rec.Panic != "" {
+			rec.EndReason = "harness-panic"
+			write()
+			os.Exit(3)
+		}
+		rec.Steps += k.Steps()
+		rec.Events += k.Events()
+		rec.SimNs += simNs
+		rec.Anon += k.AnonCount()
+		for p, n := range k.Probes {
+			rec.Probes[p] += n
+		}
+		for p, n := range k.Faults {
+			rec.Faults[p] += n
+		}
+		for _, p := range k.PairList() {
+			pairs[p] = true
+		}
+		hashes[k.HashHex()] = true
+		if len(samples) < 2 {
+			cs.sample["iter"] = i
+			cs.sample["steps"] = k.Steps()
+			cs.sample["end"] = k.endReason
+			samples = append(samples, cs.sample)
+		}
+		if len(k.Violations) > 0 {
+			for _, v := range k.Violations {
+				v.Detail = fmt.Sprintf("[iteration %d] %s", i, v.Detail)
+				rec.Violations = append(rec.Violations, v)
+			}
+			rec.Tape = tape.Rec
+			rec.Summary["viol_iter"] = i
+			rec.Hash = k.HashHex()
+			if in.KeepLog {
+				rec.Log = k.Log
+			}
+			break
+		}
+		if only == i {
+			rec.Tape = tape.Rec
+			rec.Hash = k.HashHex()
+			if in.KeepLog {
+				rec.Log = k.Log
+			}
+		}
+	}
+	rec.EndReason = "comp-done"
+	if rec.Hash == "" {
+		rec.Hash = fmt.Sprintf("comp-%d-hashes", len(hashes))
+	}
+	var hl []string
+	for h := range hashes {
+		hl = append(hl, h)
+	}
+	rec.Summary["iter_hashes"] = hl
+	rec.Summary["iterations"] = len(hashes)
+	rec.Summary["samples"] = samples
+	for p := range pairs {
+		rec.PairList = append(rec.PairList, p)
+	}
+	rec.Pairs = len(pairs)
+	write()
+	os.Exit(0)
+}
+
+func contains(s, sub string) bool {
+	for i := 0; i+len(sub) <= len(s); i++ {
+		if s[i:i+len(sub)] == sub {
+			return true
+		}
+	}
+	return false
+}
+
+// runUntilQuiet drives the kernel until every client has finished, or nothing can happen any more.
+// It returns "done", "deadlock" or the kernel's own end reason.
+func (cs *compState) runUntilQuiet(extra func()) string {
+	k := cs.k
+	lastEvents := -1
+	stale := 0
+	return k.Run(func() {
+		if extra != nil {
+			extra()
+		}
+		if k.stopRun {
+			return
+		}
+		if cs.Live() == 0 {
+			k.End("done")
+			return
+		}
+		if len(k.sortedParked()) == 0 {
+			if k.Events() == lastEvents {
+				stale++
+			} else {
+				stale = 0
+			}
+			lastEvents = k.Events()
+			limit := cs.staleRounds
+			if limit == 0 {
+				limit = 3
+			}
+			if stale >= limit {
+				k.End("deadlock")
+			}
+		} else {
+			stale = 0
+			lastEvents = k.Events()
+		}
+	})
 }
